@@ -202,7 +202,12 @@ class Check:
                 self.undecided = 'MIR dump %s failed (source does not compile?) see .work/mir/%s.txt.err' % (name, name)
                 return False
         for name in want:
-            if name.startswith('bin'):
+            if name == 'bin_on' and 'bin_off' in want:
+                # the debug-arithmetic dump of the same crate: its own database (the names are the same)
+                d = MirDB(self.si)
+                d.load(dumps[name], 'bin')
+                self.dbs['bin_on'] = d
+            elif name.startswith('bin'):
                 self.db.load(dumps[name], 'bin')
         # milu gets its own db (names overlap)
         for name in want:
